@@ -27,7 +27,7 @@ PROPS = {
             (tcp_stream.C12, ["C12_WireClean", "C12_StreamIntegrity", "C12_NoSilentLoss", "C12_NoPanic"]),
             (clientlife, ["C04_SrvOwnHandler"])],
     "C05": [(pending, ["C05_"])],
-    "C13": [(chan.C13, ["C13_"]), (transport, ["C13_Transport"]), (clientlife, ["C13_ClientReleases"])],
+    "C13": [(chan.C13, ["C13_"]), (transport, ["C13_Transport"]), (clientlife, ["C13_Client"])],
     "C12": [(tcp_stream.C12, ["C12_"])],
     "C17": [(chan.C17, ["C17_", "C13_NoCrash"])],
     "C18": [(srvlife, ["C18_"]), (listener, ["C18_ListenerStops"])],
